@@ -7,7 +7,7 @@ RULE = ("every closure class and alias (8 names) x hard-core flag x sigma {on a 
         "Domain.r grid (passed bit-exactly) x gamma families {normal, +-50 tails, zeros, tiny} x potential families {random finite, hard core 1e6, "
         "LJ-like, zero, tiny}; the returned array is compared with the Lean model (rtol 1e-12 on the scale of the data; the comparison r > sigma is bit-exact), "
         "the published relation is evaluated independently at every point, and purity probes run (inputs bit-identical after the call, second call identical, "
-        "element-wise: index i unchanged when all other indices are replaced, alias == parent); histories on ONE closure object whose potential/sigma are re-assigned or edited in place between calls. Non-trivial = at least one point in each branch or |gamma| > 5; "
+        "element-wise: index i unchanged when all other indices are replaced; default construction of classes and aliases; other closure objects with other sigmas configured in between); histories on ONE closure object whose potential/sigma are re-assigned or edited in place between calls. Non-trivial = at least one point in each branch or |gamma| > 5; "
         "distinct = distinct case")
 EXTRA_TRUSTED = ["numpy's exp/sqrt vs libm's (Lean Float): agreement to 1e-12 relative is assumed and checked on every case",
                  "Martynov-Sarkisov: the model carries the shipped expression and the two published variants A (1983) and B (gamma*=gamma-u); "
@@ -37,7 +37,12 @@ def suite_eval(ctx, case):
     if case.get('gint'): g = np.rint(g).astype(int)          # an integer-TYPED gamma (finding F19)
     sigma = case['sigma']
     c = getattr(CL, name)(hc) if case.get('positional') else getattr(CL, name)(apply_hard_core=hc)      # the flag is the first positional argument
+    if case.get('default') and not hc: c = getattr(CL, name)()          # the documented default: no hard-core rule, for the class and for its alias alike
     c.sigma = sigma; c.potential = u
+    if case.get('crowd'):
+        # other closure objects alive and configured AFTER this one (every pair of a System has its own closure with its own sigma)
+        crowd = [getattr(CL, nm)(apply_hard_core=True) for nm in ('PercusYevick', name, 'HNC', 'MSA', 'MartynovSarkisov')]
+        for q, oc in enumerate(crowd): oc.sigma = sigma * (1.3 + 0.2 * q) + 0.07; oc.potential = np.full(len(r), 3.0 + q)
     r0, g0, u0 = r.copy(), g.copy(), u.copy()
     with np.errstate(all='ignore'):
         out = np.array(c.calculate(r, g), dtype=float).copy()
@@ -162,7 +167,7 @@ def gen_case(rng, maxL):
     elif uk == 'zero': u = [0.0 for _ in r]
     else: u = [rng.gauss(0, 1e-3) for _ in r]
     return {'cls': rng.choice(list(NAMES)), 'hc': rng.random() < 0.5, 'sigma': sigma, 'r': r, 'gamma': g, 'u': u,
-            'probe': rng.randrange(1000), 'fam': [sk, gk, uk], 'uint': uk == 'random' and rng.random() < 0.3, 'positional': rng.random() < 0.3, 'gint': gk in ('normal', 'tails') and rng.random() < 0.15}
+            'probe': rng.randrange(1000), 'fam': [sk, gk, uk], 'default': rng.random() < 0.3, 'crowd': rng.random() < 0.5, 'uint': uk == 'random' and rng.random() < 0.3, 'positional': rng.random() < 0.3, 'gint': gk in ('normal', 'tails') and rng.random() < 0.15}
 
 def gen_history(rng):
     base = gen_case(rng, 24)
